@@ -350,4 +350,105 @@ def calcTimeRangeAndInterval (st : Stmt) (ivs : List Int) : Option Plan :=
                intervalRatio := intervalRatio }
       | _, _ => none
 
+
+/-! ### interval ladders (pkg/option/tsdb.go) -/
+
+/-- loop of `Intervals.IsValid()`: `seen` = the types in `intervalMap`; `false` = "duplicate
+interval type" error at the first interval whose type was seen before -/
+def isValidFrom : List Calc → List Int → Bool
+  | _, [] => true
+  | seen, i :: r => if seen.contains (intervalType i) then false else isValidFrom (intervalType i :: seen) r
+
+/-- `Intervals.IsValid() == nil` -/
+def ladderValid (ivs : List Int) : Bool := isValidFrom [] ivs
+
+/-- result of `DatabaseOption.Validate()` for an option with empty `Ahead`/`Behind` -/
+inductive ValidateResult where
+  | ok | empty | duplicate
+  deriving DecidableEq, Repr
+
+/-- `DatabaseOption.Validate()` (Ahead/Behind unset) -/
+def validateOption (ivs : List Int) : ValidateResult :=
+  if ivs.isEmpty then .empty else if ladderValid ivs then .ok else .duplicate
+
+/-- last path element of `ShardIntervalSegmentPath(db, shard, interval)`: `interval.Type().String()` -/
+def segmentDirName (i : Int) : String :=
+  match intervalType i with
+  | .day => "day" | .month => "month" | .year => "year"
+
+/-- how the storage resolves an interval TYPE to one of the shard's interval segments
+(`Shard.GetDataFamilies(intervalType, ..)`: the interval segment whose interval has that type) -/
+def resolveByType (ivs : List Int) (ty : Calc) : Option Int := ivs.find? (fun i => intervalType i = ty)
+
+/-! ### Interval.String / Interval.ValueOf (number and unit; digits are strconv's / fmt's) -/
+
+inductive TimeUnit where
+  | s | m | h | d | M | y
+  deriving DecidableEq, Repr
+
+def TimeUnit.ms : TimeUnit → Int
+  | .s => oneSecond | .m => oneMinute | .h => oneHour | .d => oneDay | .M => oneMonth | .y => oneYear
+
+/-- `Interval.String()`: the largest unit that divides the value with a positive quotient, else
+seconds (truncated) -/
+def intervalParts (v : Int) : Int × TimeUnit :=
+  if Int.tmod v oneYear = 0 ∧ Int.tdiv v oneYear > 0 then (Int.tdiv v oneYear, .y)
+  else if Int.tmod v oneMonth = 0 ∧ Int.tdiv v oneMonth > 0 then (Int.tdiv v oneMonth, .M)
+  else if Int.tmod v oneDay = 0 ∧ Int.tdiv v oneDay > 0 then (Int.tdiv v oneDay, .d)
+  else if Int.tmod v oneHour = 0 ∧ Int.tdiv v oneHour > 0 then (Int.tdiv v oneHour, .h)
+  else if Int.tmod v oneMinute = 0 ∧ Int.tdiv v oneMinute > 0 then (Int.tdiv v oneMinute, .m)
+  else (Int.tdiv v oneSecond, .s)
+
+/-- `Interval.ValueOf` after the number and the unit suffix have been split: `value * unit` -/
+def valueOfParts (p : Int × TimeUnit) : Int := p.1 * p.2.ms
+
+def TimeUnit.suffix : TimeUnit → String
+  | .s => "s" | .m => "m" | .h => "h" | .d => "d" | .M => "M" | .y => "y"
+
+def intervalString (v : Int) : String := toString (intervalParts v).1 ++ (intervalParts v).2.suffix
+
+/-- unit of a suffix character as `ValueOf`'s switch reads it -/
+def unitOfSuffix : Char → Option TimeUnit
+  | 's' | 'S' => some .s
+  | 'm' => some .m
+  | 'h' | 'H' => some .h
+  | 'd' | 'D' => some .d
+  | 'M' => some .M
+  | 'y' | 'Y' => some .y
+  | _ => none
+
+/-- `Interval.ValueOf(str)`: blanks removed, at least two characters, known suffix, decimal int64
+prefix (`strconv.ParseInt(.., 10, 64)`: optional sign, digits); `none` = `ErrUnknownInterval` -/
+def valueOf (str : String) : Option Int :=
+  let cs := str.toList.filter (· ≠ ' ')
+  if cs.length ≤ 1 then none else
+  match cs.getLast?.bind unitOfSuffix with
+  | none => none
+  | some u =>
+    let pre := cs.dropLast
+    let digits := match pre with
+      | '+' :: r => r
+      | '-' :: r => r
+      | r => r
+    if digits.isEmpty ∨ ¬ digits.all Char.isDigit then none else
+    let n : Int := (digits.foldl (fun acc c => acc * 10 + (c.toNat - '0'.toNat)) 0 : Nat)
+    let n := if pre.head? = some '-' then -n else n
+    if n < -9223372036854775808 ∨ n > 9223372036854775807 then none else
+    some (valueOfParts (n, u))
+
+/-! ### CalcTimeWindows -/
+
+/-- `CalcTimeWindows(start, end)`: day: hour buckets; month: local days (`int(hours/24) + 1`);
+year: days between the `time.Date(y, m, 0)` of both ends divided by 30 (`int(hours/24/30) + 1`);
+`int(float)` truncates toward zero -/
+def calcTimeWindows : Calc → Int → Int → Int
+  | .day, a, b =>
+    Int.tdiv (Int.tdiv b oneHour * oneHour - Int.tdiv a oneHour * oneHour) oneHour + 1
+  | .month, a, b =>
+    let ca := civilOfMs a; let cb := civilOfMs b
+    (dateDays cb.1 cb.2.1 cb.2.2 - dateDays ca.1 ca.2.1 ca.2.2) + 1
+  | .year, a, b =>
+    let ca := civilOfMs a; let cb := civilOfMs b
+    Int.tdiv (dateDays cb.1 cb.2.1 0 - dateDays ca.1 ca.2.1 0) 30 + 1
+
 end LinVerif.Interval
